@@ -47,35 +47,61 @@ pub fn add_threshold_constraints(rng: &mut Rng, inst: &mut v1::Instance, pool: &
     }
 }
 
-/// mark some unused variables as fixed (substituted) or dependent on used ones; returns the ids
-/// that must not be given in a state
+/// mark some unused variables as fixed (substituted) or dependent; returns the ids that must not be
+/// given in a state (fixed and dependent ones) and the ids that dependency functions read (which a
+/// state must provide unless they are themselves fixed or dependent).
+/// Dependency functions may read used variables, otherwise-unused variables, fixed variables and
+/// earlier dependent variables (chains; acyclic by construction).
 pub fn add_fixed_and_dependent(rng: &mut Rng, inst: &mut v1::Instance, regime: Regime) -> BTreeSet<u64> {
+    add_fixed_and_dependent2(rng, inst, regime).0
+}
+
+pub fn add_fixed_and_dependent2(rng: &mut Rng, inst: &mut v1::Instance, regime: Regime) -> (BTreeSet<u64>, BTreeSet<u64>) {
     let used = used_ids(inst);
     let mut hidden = BTreeSet::new();
+    let mut dep_sources = BTreeSet::new();
     let unused: Vec<u64> = inst.decision_variables.iter().map(|v| v.id).filter(|i| !used.contains(i)).collect();
-    let sources: Vec<u64> = inst.decision_variables.iter().map(|v| v.id).filter(|i| used.contains(i)).collect();
+    let mut sources: Vec<u64> = inst.decision_variables.iter().map(|v| v.id).filter(|i| used.contains(i)).collect();
+    let mut plain_unused: Vec<u64> = vec![];
     for id in unused {
-        match rng.below(4) {
+        match rng.below(5) {
             0 => {
                 let v = inst.decision_variables.iter_mut().find(|v| v.id == id).unwrap();
                 let val = value_in_bound(rng, v, regime);
                 v.substituted_value = Some(val);
                 hidden.insert(id);
+                // a fixed variable may feed later dependencies
+                sources.push(id);
             }
-            1 if !sources.is_empty() => {
+            1 | 2 if !sources.is_empty() => {
                 let mut cfg = FnCfg::new(sources.clone(), Regime::D);
                 cfg.max_terms = 3;
                 cfg.max_degree = 2;
                 cfg.allow_unset = false;
                 cfg.dup_positions = false;
-                let f = gen_function(rng, &cfg);
+                // small coefficients keep chains inside the exactness certificate
+                let mut f = gen_function(rng, &cfg);
+                if rng.bool() {
+                    let a = *rng.pick(&sources);
+                    f = f_linear(linear(vec![(a, *rng.pick(&[1.0, -1.0, 0.5, 2.0]))], *rng.pick(&[0.0, 1.0, -0.5])));
+                }
+                dep_sources.extend(crate::exact::occurring_ids(&f));
                 inst.decision_variable_dependency.insert(id, f);
                 hidden.insert(id);
+                // an earlier dependent variable may feed a later one (chain)
+                sources.push(id);
             }
-            _ => {}
+            _ => {
+                // stays an ordinary unused variable; it may still be read by a dependency function
+                plain_unused.push(id);
+                if rng.bool() {
+                    sources.push(id);
+                }
+            }
         }
     }
-    hidden
+    let dep_sources: BTreeSet<u64> = dep_sources.into_iter().filter(|i| !hidden.contains(i)).collect();
+    (hidden, dep_sources)
 }
 
 impl Property for C05 {
@@ -113,7 +139,7 @@ impl Property for C05 {
         let g = gen_instance(rng, &cfg);
         let mut inst = g.instance;
         add_threshold_constraints(rng, &mut inst, &g.pool);
-        let hidden = add_fixed_and_dependent(rng, &mut inst, regime);
+        let (hidden, dep_sources) = add_fixed_and_dependent2(rng, &mut inst, regime);
         let used = used_ids(&inst);
 
         // scenario
@@ -123,7 +149,7 @@ impl Property for C05 {
             .iter()
             .map(|v| v.id)
             .filter(|id| !hidden.contains(id))
-            .filter(|id| used.contains(id) || scenario % 2 == 0 || rng.bool())
+            .filter(|id| used.contains(id) || dep_sources.contains(id) || scenario % 2 == 0 || rng.bool())
             .collect();
         let mut st = gen_state_in_bounds(rng, &inst, Some(&give), regime);
         // values for ids the instance does not define are legal in a state and must be kept
